@@ -309,12 +309,15 @@ def shards(tier, seed):
     with os.fdopen(fd, 'w') as f:
         json.dump(t, f)
     n = 16 if tier == 'quick' else 32
+    _OWN_TABLES.append(path)
     return [{'i': i, 'n': n, 'table': path} for i in range(n)]
 
 
+_OWN_TABLES = []
+
+
 def post_merge(merged, tier, seed):
-    import glob
-    for p in glob.glob(os.path.join(tempfile.gettempdir(), 'vf-c19-table-*.json')):
+    for p in _OWN_TABLES:
         try:
             os.unlink(p)
         except OSError:
